@@ -399,6 +399,40 @@ func init() {
 			}
 			ypcs = append(ypcs, pc)
 		}
+		// nullable arrays (type [array,null], also below a nullable outer array), REQUIRED or optional, with limits: an explicit
+		// null is valid and no length is asked of it; both wires
+		for _, req := range []bool{true, false} {
+			for _, nested := range []bool{false, true} {
+				var node sgen.M
+				if nested {
+					node = sgen.M{"type": []any{"array", "null"}, "minItems": 2, "maxItems": 3, "items": sgen.M{"type": "array", "items": sgen.M{"type": "integer"}, "minItems": 2, "maxItems": 3}}
+				} else {
+					node = sgen.M{"type": []any{"array", "null"}, "minItems": 2, "maxItems": 3, "items": sgen.M{"type": "integer"}}
+				}
+				schema := sgen.M{"type": "object", "properties": sgen.M{"v": node, "k": sgen.M{"type": "string"}}}
+				if req {
+					schema["required"] = []any{"v"}
+				}
+				el := func(n int) []any {
+					var xs []any
+					for k := 0; k < n; k++ {
+						if nested {
+							xs = append(xs, []any{k, k + 1})
+						} else {
+							xs = append(xs, k)
+						}
+					}
+					if xs == nil {
+						xs = []any{}
+					}
+					return xs
+				}
+				docs := []any{M{"v": nil}, M{"v": nil, "k": "x"}, M{"v": el(0)}, M{"v": el(1)}, M{"v": el(2)}, M{"v": el(3)}, M{"v": el(4)}, M{"k": "x"}}
+				pc := baseCase("c07-yaml", schema, docs, string(PosOptional), "nullable", "in-scope", fmt.Sprintf("nullable required=%v nested=%v", req, nested))
+				pc.Cfg.ExtraImports = true
+				ypcs = append(ypcs, pc)
+			}
+		}
 		res := runCases(c, append(pcs, ypcs...))
 		fails += verdictOracle(c, res, "array length limits", func(r *core.PResult, i int) bool {
 			return r.Case.Labels[2] == "K2-region"
